@@ -194,6 +194,13 @@ func newC15World(r *rng, detached bool) *c15World {
 	mustGit(w.a, "remote", "add", "origin", w.origin)
 	mustGit(w.a, "push", "-q", "origin", "--all")
 	mustGit(w.a, "push", "-q", "origin", "--tags")
+	// tags the remote has and this repository has not (deleted here after it was published), or has
+	// at another commit: a fetch of git-bug's refs has no business following tags
+	mustGit(w.a, "tag", "published-then-deleted", "HEAD")
+	mustGit(w.a, "tag", "moved-locally", "HEAD~1")
+	mustGit(w.a, "push", "-q", "origin", "published-then-deleted", "moved-locally")
+	mustGit(w.a, "tag", "-d", "published-then-deleted")
+	mustGit(w.a, "tag", "-f", "moved-locally", "HEAD")
 	mustGit(w.a, "fetch", "-q", "origin")
 	// host branches that are ahead of the remote, and one the remote does not have: nothing of
 	// git-bug's may publish them
@@ -257,6 +264,7 @@ func newC15World(r *rng, detached bool) *c15World {
 	}
 	mustGit(root, "clone", "-q", w.origin, w.b)
 	mustGit(w.b, "config", "foo.other", "clone")
+	mustGit(w.b, "tag", "-d", "published-then-deleted")
 	return w
 }
 
